@@ -32,7 +32,8 @@ def gen_history(rnd, n_eps):
             end = rnd.choice(["stop", "stop_now", "stop_now", "stop2", "gate_enter", "gate_enter", "gate_before_wait"])
         else:
             end = rnd.choice(["stop", "stop_now", "stop_now", "stop2", "next_reset"])
-        H.append(dict(style=style, n=n, end=end, mid_reset=(style == "step" and rnd.random() < 0.25), pre_stop=(e == 0 and rnd.random() < 0.2)))
+        H.append(dict(style=style, n=n, end=end, mid_reset=(style == "step" and rnd.random() < 0.25), pre_stop=(e == 0 and rnd.random() < 0.2),
+                      carry=(e > 0 and rnd.random() < 0.4)))  # carry: start from the PREVIOUS episode's final graph state instead of the initial one
     return H
 
 
@@ -57,6 +58,10 @@ def run_case(case):
         for n in spec["nodes"]:
             n["rate"] = max(n["rate"], 13)
     g, nodes, sup, gs0 = D.build_graph(spec, clock="wall" if wall else "sim", rtf=rtf, max_records=300, init_seed=case["spec_seed"])
+    slow_start = 0.0
+    if wall and rnd.random() < 0.7:
+        slow_start = 1.0
+        rnd.choice(list(nodes.values())).startup_sleep = slow_start  # episode time must start AFTER the start-up routines
     mon = D.Monitor(seed=case["spec_seed"], p_sleep=0.15 if not wall else 0.0, max_sleep=0.003).install()
     H = gen_history(rnd, rnd.randint(3, 6))
     iso = case.get("kind") == "iso"
@@ -71,19 +76,25 @@ def run_case(case):
         state["op"] = None
         return r
 
+    last_gs = [None]
+
     def user():
         try:
             pending = None  # episode whose record can only be collected after the next stop
             for e, h in enumerate(H):
                 state["ep"] = e
                 nonce = 500 + e
-                gs = D.with_nonce(gs0, nodes, nonce)
-                info = dict(ep=e, h=h, nonce=nonce, gate_reached=None, record=None, obs0=None)
+                start_gs = last_gs[0] if (h.get("carry") and last_gs[0] is not None) else gs0
+                gs = D.with_nonce(start_gs, nodes, nonce)
+                info = dict(ep=e, h=h, nonce=nonce, gate_reached=None, record=None, obs0=None, first_run_seq=None)
                 if h["pre_stop"]:
                     call("stop(before any episode)", g.stop)
                 if h["style"] == "run":
                     for i in range(h["n"]):
                         gs = call("run", g.run, gs)
+                        if i == 0:
+                            info["first_run_seq"] = int(onp.array(gs.step_state[sup.name].seq))
+                    last_gs[0] = gs
                 else:
                     gs, ss = call("reset", g.reset, gs)
                     info["obs0"] = (int(onp.array(ss.seq)), float(onp.array(ss.ts)))
@@ -194,20 +205,32 @@ def run_case(case):
             items.append(dict(status="inconclusive", key=key, nontrivial=False, note="gate timed out"))
             continue
         if info["obs0"] is not None and info["obs0"][0] != 0:
-            V.append(dict(clause="first_observation_not_seq0", obs0=info["obs0"]))
+            V.append(dict(clause="first_observation_not_seq0", obs0=info["obs0"], carried_over_start=bool(h.get("carry"))))
+        if info.get("first_run_seq") is not None and info["first_run_seq"] != 1:
+            V.append(dict(clause="episode_does_not_start_from_seq0", supervisor_seq_after_first_run=info["first_run_seq"], carried_over_start=bool(h.get("carry"))))
         rec = info["record"]
         if rec is not None:
             counters["episodes_checked"] += 1
             stats = {}
-            V += c03.check_record(rec, nodes, stats, wall_clock=wall, own_nonce=info["nonce"])
+            # an episode started from a carried-over graph state legitimately begins with the user's state and input windows:
+            # only the "starts from sequence number 0 and time 0" clauses apply to it, not the window/nonce/state clauses
+            carried = bool(h.get("carry"))
+            V += c03.check_record(rec, nodes, stats, wall_clock=wall, own_nonce=None if carried else info["nonce"], check_windows=not carried)
             if not wall:
                 V += c04.check_record(rec, nodes, {}, wall_clock=False)
             counters["msgs"] += stats.get("msgs", 0)
+            if wall and slow_start:
+                # wall clock: the first step's measured end (and the first arrivals) must not include the start-up routine (1.0 s)
+                for name, nr in rec.nodes.items():
+                    if len(nr.steps.ts_end) and float(nr.steps.ts_end[0]) - float(nr.steps.ts_start[0]) > 0.6 and float(nr.steps.ts_start[0]) < 0.3:
+                        V.append(dict(clause="episode_time_includes_startup", node=name, ts_start0=float(nr.steps.ts_start[0]), ts_end0=float(nr.steps.ts_end[0]), startup_s=slow_start))
+                        break
+                counters["startup_time_checked"] += 1
             eps_vals = set()
             for name, nr in rec.nodes.items():
                 eps_vals |= set(int(x) for x in onp.array(nr.steps.eps).ravel())
                 st = nr.steps
-                if nr.steps.state is not None and len(st.seq) and int(onp.array(st.state.cnt)[0]) != 0:
+                if not carried and nr.steps.state is not None and len(st.seq) and int(onp.array(st.state.cnt)[0]) != 0:
                     V.append(dict(clause="state_carried_over", node=name, cnt0=int(onp.array(st.state.cnt)[0])))
                 for m, ir in nr.inputs.items():
                     so = onp.array(ir.messages.seq_out)
